@@ -160,16 +160,37 @@ class VTS:
         self.memvar = {n: [z3.BitVec(f"v_{n}[{i}]", d["width"]) for i in range(d["depth"])] for n, d in m.mems.items()}
         self.env = {n: (self.var[n], d["width"], d["signed"]) for n, d in m.nets.items()}
         self.comb_eq = {}; self.next = {}; self.mem_next = {}; self.init = {}; self.mem_init = {}
+        partial = {}                      # net -> [(hi, lo, value)] : continuous assignments to part selects
         for lhs, rhs in m.assigns:
             if lhs[0] == "cat":
-                # assign {a, b, c} = rhs : msb-first list of whole nets
-                names = [x[1] for x in lhs[1]]; assert all(x[0] == "id" for x in lhs[1]), lhs
-                total = sum(m.nets[n]["width"] for n in names); val = self.assign_val(total, rhs); off = total
-                for n in names:
-                    w = m.nets[n]["width"]; off -= w; self.comb_eq[n] = z3.Extract(off + w - 1, off, val)
+                # assign {a, b[3:2], c} = rhs : msb-first list of whole nets and constant part selects
+                items = []
+                for x in lhs[1]:
+                    if x[0] == "id": items.append((x[1], m.nets[x[1]]["width"] - 1, 0, True))
+                    else:
+                        assert x[0] == "sel" and x[1][0] == "id", lhs; items.append((x[1][1], x[2], x[3], False))
+                total = sum(hi - lo + 1 for _, hi, lo, _ in items); val = self.assign_val(total, rhs); off = total
+                for n, hi, lo, whole in items:
+                    w = hi - lo + 1; off -= w; piece = z3.Extract(off + w - 1, off, val)
+                    if whole: assert n not in self.comb_eq, f"{n} driven twice"; self.comb_eq[n] = piece
+                    else: partial.setdefault(n, []).append((hi, lo, piece))
                 continue
+            if lhs[0] == "sel" and lhs[1][0] == "id":
+                partial.setdefault(lhs[1][1], []).append((lhs[2], lhs[3], self.assign_val(lhs[2] - lhs[3] + 1, rhs))); continue
             assert lhs[0] == "id", lhs
             w = m.nets[lhs[1]]["width"]; self.comb_eq[lhs[1]] = self.assign_val(w, rhs)
+        self.undriven = {}                # net -> bit positions of a wire that no continuous assignment drives (high impedance: any value)
+        for n, parts in partial.items():
+            assert n not in self.comb_eq, f"{n} driven twice"
+            w = m.nets[n]["width"]; bits = [None] * w
+            for hi, lo, piece in parts:
+                for k in range(lo, hi + 1):
+                    assert bits[k] is None, f"{n}[{k}] driven twice"; bits[k] = z3.Extract(k - lo, k - lo, piece)
+            free = [k for k in range(w) if bits[k] is None]
+            if free: self.undriven[n] = free
+            zz = z3.BitVec(f"z_{n}", w)
+            bits = [b_ if b_ is not None else z3.Extract(k, k, zz) for k, b_ in enumerate(bits)]
+            self.comb_eq[n] = z3.Concat(*reversed(bits)) if w > 1 else bits[0]
         for st in m.comb:
             saved = dict(self.env)
             pend = {}; self.exec(st, pend, {}, None)
